@@ -209,6 +209,60 @@ fn main() {
             // Hidden: ReconKey equality / hash of the product against the key classes of the `queues` world.
             print!("{}", worlds::queues::key_report());
         }
+        "corpus-verify" => {
+            // Every corpus entry must be clean on the tree it is kept for (apart from open known findings); with
+            // --prune the entries that are not are deleted (used when the corpus is built from changed trees).
+            let prune = args.iter().any(|a| a == "--prune");
+            let root = runner::verif_root().join("corpus");
+            let known = runner::load_known_findings();
+            let mut bad = 0;
+            let mut total = 0;
+            let mut props: Vec<String> = std::fs::read_dir(&root).map(|rd| rd.flatten().map(|e| e.file_name().to_string_lossy().to_string()).collect()).unwrap_or_default();
+            props.sort();
+            for prop in props {
+                let mut names: Vec<String> = std::fs::read_dir(root.join(&prop)).map(|rd| rd.flatten().map(|e| e.file_name().to_string_lossy().to_string()).collect()).unwrap_or_default();
+                names.sort();
+                for n in names {
+                    let path = root.join(&prop).join(&n);
+                    let Ok(text) = std::fs::read_to_string(&path) else { continue };
+                    let entry: runner::CorpusEntry = match serde_json::from_str(&text) {
+                        Ok(e) => e,
+                        Err(e) => {
+                            println!("UNREADABLE {} {e}", path.display());
+                            bad += 1;
+                            continue;
+                        }
+                    };
+                    let Some(world) = checks::world_by_name(&entry.world) else {
+                        println!("UNKNOWN-WORLD {} {}", path.display(), entry.world);
+                        bad += 1;
+                        continue;
+                    };
+                    let world: Arc<dyn World> = world;
+                    total += 1;
+                    let out = runner::execute_isolated(&world, &entry.scenario, false);
+                    let mut why = vec![];
+                    if let Some(e) = &out.harness_error {
+                        why.push(format!("harness error {e}"));
+                    }
+                    for v in &out.violations {
+                        let is_known = known.findings.iter().any(|k| k.status == "open" && k.property == v.property && v.sig.starts_with(&k.sig_prefix));
+                        if v.property == prop && !is_known {
+                            why.push(v.sig.clone());
+                        }
+                    }
+                    if !why.is_empty() {
+                        bad += 1;
+                        println!("NOT-CLEAN {} {:?}", path.display(), why);
+                        if prune {
+                            let _ = std::fs::remove_file(&path);
+                        }
+                    }
+                }
+            }
+            println!("corpus entries={total} not_clean={bad}");
+            std::process::exit(if bad == 0 { 0 } else { 1 });
+        }
         "worlds" => {
             for w in checks::world_names() {
                 println!("{w}");
